@@ -3,6 +3,7 @@ package main
 import (
 	"fmt"
 	"sync"
+	"time"
 
 	"github.com/andydunstall/piko/server/config"
 	"verifharness/internal/e4"
@@ -87,8 +88,32 @@ func (w *c06World) configure(c c06Case) {
 	}
 }
 
+// run sends the request of the case twice in the same configuration: what a
+// node remembers from the first one (connections, caches) must not change the
+// answer to the second.
 func (w *c06World) run(c c06Case) (sig, msg string) {
 	w.configure(c)
+	for attempt := 1; attempt <= 2; attempt++ {
+		if sig, msg = w.runOnce(c); sig != "" {
+			if attempt == 2 {
+				msg = "second identical request: " + msg
+			}
+			return sig, msg
+		}
+		// the proxy removes an upstream that said go-away when it meets it; only then
+		// is the configuration put back before the second request (re-writing the
+		// routing views would wipe whatever the nodes remember)
+		for i := 0; i < w.n; i++ {
+			if c.place(i) == 2 {
+				w.cl.Nodes[i].Mgr.RemoveConn(w.ups[i])
+				w.cl.Nodes[i].Mgr.AddConn(w.ups[i])
+			}
+		}
+	}
+	return "", ""
+}
+
+func (w *c06World) runOnce(c c06Case) (sig, msg string) {
 	before := w.cl.TotalAccepts()
 	var perNode []int64
 	for _, n := range w.cl.Nodes {
@@ -102,7 +127,30 @@ func (w *c06World) run(c c06Case) (sig, msg string) {
 	if c.Conn != "" {
 		a.Extra["Connection"] = c.Conn
 	}
-	res := e4.Do(w.cl.Nodes[c.Entry].Addr, a)
+	var res e4.Result
+	if c.Mode == "tcp" && c.Conn != "" {
+		// a raw WebSocket handshake on the TCP route whose Connection header is a
+		// token list (gorilla's dialer does not allow setting it)
+		lines := []string{"GET /_piko/v1/tcp/e1 HTTP/1.1", "Host: piko.test", "Upgrade: websocket", "Connection: Upgrade, " + c.Conn,
+			"Sec-WebSocket-Key: dGhlIHNhbXBsZSBub25jZQ==", "Sec-WebSocket-Version: 13"}
+		if c.Forward != "" {
+			lines = append(lines, "x-piko-forward: "+c.Forward)
+		}
+		resp, conn, br, err := rawRequest(w.cl.Nodes[c.Entry].Addr, lines...)
+		if err != nil {
+			res = e4.Result{Err: err.Error()}
+		} else {
+			res = e4.Result{Status: resp.StatusCode, Endpoint: "e1"}
+			if resp.StatusCode == 101 {
+				// the stamp protocol over the raw connection: one masked binary frame
+				res.Node = tcpStampNode(conn, br)
+			}
+			conn.Close()
+			time.Sleep(5 * time.Millisecond) // let the proxies account the closed tunnel
+		}
+	} else {
+		res = e4.Do(w.cl.Nodes[c.Entry].Addr, a)
+	}
 	hops := w.cl.TotalAccepts() - before
 	okStatus := 200
 	if c.Mode == "tcp" {
@@ -224,8 +272,12 @@ func init() {
 						for _, m := range modes {
 							for _, f := range []string{"", "true", "false"} {
 								cases = append(cases, c06Case{N: n, Beliefs: b, Place: p, Entry: e, Mode: m, Forward: f})
-								if m == "header" && n == 3 {
+								if n == 3 {
+									// the client declares the marker hop-by-hop (either route, any spelling)
 									cases = append(cases, c06Case{N: n, Beliefs: b, Place: p, Entry: e, Mode: m, Forward: f, Conn: "x-piko-forward"})
+									if f == "" {
+										cases = append(cases, c06Case{N: n, Beliefs: b, Place: p, Entry: e, Mode: m, Conn: "X-Piko-Forward"})
+									}
 								}
 								if f == "" && n == 3 {
 									for lc := range c06LogConfigs {
